@@ -288,3 +288,124 @@ Theorem C05_psort_seq_sorted : forall counts (g : list Z), length g = fold_right
   StronglySorted Z.le (psort_seq counts g).
 Proof. exact psort_seq_sorted. Qed.
 Print Assumptions C05_psort_seq_sorted.
+
+(* ---- (e) COMPOSITION: the distributed execution computes the arrays of the sequential comparator network -------------
+   `dist_psort` (PsortModel.v): all ranks in rounds; in one merge step every participating rank runs loop 2 on the
+   segments with both ends on the rank and applies one peer record per remote segment, the receive buffer being the
+   partner's segment as it was before the round.  `dist_psort_w` (PsortComposeWait.v): the same with loop 3 executed by
+   the two Waitsome loops (`wait_loop`), the answers of the Waitsome calls being given by an arbitrary oracle W
+   (indexed by the position of the sc_merge_bitonic call in the recursion tree, the rank and the number of requests). *)
+From ScV Require Import C05.PsortCompose C05.PsortComposeWait.
+
+(* one round of the distributed merge = the half-cleaner of the network (for every rank count, count vector incl.
+   zeros, every n >= 2 - not only powers of two - and every position of the range) *)
+Theorem C05_dist_merge_step_is_halfcleaner : forall (A : Type) (gt : A -> A -> bool) (sort : bool -> list A -> list A)
+  counts dir lo n (g : list A),
+  2 <= n -> lo + n <= cum (cumul 0 counts) (length counts) -> length g = cum (cumul 0 counts) (length counts) ->
+  dist_merge_step A gt dir (cumul 0 counts) lo n g = run A gt sort (halfclean_ops lo (n2_of n) (n - n2_of n) dir) g.
+Proof. exact dist_merge_step_eq. Qed.
+Print Assumptions C05_dist_merge_step_is_halfcleaner.
+
+(* THE COMPOSITION THEOREM: for every element type, every comparison (no order property needed) and every local sort
+   that keeps the length, the distributed rounds compute exactly the arrays of the sequential reference *)
+Theorem C05_dist_equals_seq : forall (A : Type) (gt : A -> A -> bool) (sort : bool -> list A -> list A),
+  (forall d l, length (sort d l) = length l) ->
+  forall counts xs, map (@length A) xs = counts ->
+  dist_psort A gt sort counts xs = psort A gt sort counts xs.
+Proof. exact dist_psort_eq. Qed.
+Print Assumptions C05_dist_equals_seq.
+
+(* peer records over disjoint parts commute on EVERY array (C05_peers_commute without the length condition): the form of
+   the hypothesis of C05_waitsome_loops *)
+Theorem C05_peers_commute_every_array : forall (A : Type) (gt : A -> A -> bool) dir me (l : list A) (p q : peer A),
+  length (p_buf p) = p_len p -> length (p_buf q) = p_len q -> disjoint A p q ->
+  apply_peer A gt dir me (apply_peer A gt dir me l p) q = apply_peer A gt dir me (apply_peer A gt dir me l q) p.
+Proof. exact apply_peer_commute_gen. Qed.
+Print Assumptions C05_peers_commute_every_array.
+
+(* one rank, one merge step, EVERY completion order: for every legal pair of answer streams of the two Waitsome loops
+   (C05_waitsome_loops) the loops end with all answers consumed, every peer record compare-exchanged and freed exactly
+   once and never before its send completed, in the local array of `rank_merge_step` (records applied in index order) *)
+Theorem C05_rank_step_every_completion_order : forall (A : Type) (gt : A -> A -> bool) counts dir me lo n
+  (g l : list A) ransw sansw,
+  let off := cumul 0 counts in
+  me < length counts -> 2 <= n -> lo + n <= cum off (length counts) -> length g = cum off (length counts) ->
+  let my_lo := cum off me in
+  let n2 := n2_of n in
+  let segs := segments off me lo n2 (n - n2) in
+  let peers := map (fun s => mkpeer (ps_rank s) (ps_len s) (ps_start s) (slice A g (ps_remote s) (ps_len s)))
+                   (rank_pspecs me my_lo lo (lo + n2) segs) in
+  let m := length peers in
+  legal_stream m ransw -> legal_stream m sansw ->
+  exists fl' calls,
+    wait_loop A gt (2 * m + 1) dir me peers ransw sansw m m
+              (rank_local A gt dir me my_lo lo (lo + n2) segs l, repeat pflag0 m) [] =
+    Some (rank_merge_step A gt dir off me lo n (fun s => slice A g (ps_remote s) (ps_len s)) l, fl', 0, calls) /\
+    length fl' = m /\
+    (forall k f, nth_error fl' k = Some f ->
+       f_received f = true /\ f_sent f = true /\ f_applied f = 1 /\ f_freed f = 1 /\ f_early f = false).
+Proof. exact rank_step_any_order. Qed.
+Print Assumptions C05_rank_step_every_completion_order.
+
+(* THE COMPOSITION THEOREM WITH THE WAITSOME LOOPS: whatever legal answers (every request index once, non-empty answers,
+   any grouping and order, independently for receives and sends) the Waitsome calls of all ranks in all merge steps
+   return, the distributed execution ends - no answer missing, none left over - in the arrays of the sequential
+   reference *)
+Theorem C05_dist_waitsome_equals_seq : forall (A : Type) (gt : A -> A -> bool) (sort : bool -> list A -> list A),
+  (forall d l, length (sort d l) = length l) ->
+  forall counts W, legal_oracle W ->
+  forall xs, map (@length A) xs = counts ->
+  dist_psort_w A gt sort W counts xs = Some (psort A gt sort counts xs).
+Proof. exact dist_psort_w_eq. Qed.
+Print Assumptions C05_dist_waitsome_equals_seq.
+
+(* the property for the distributed execution.  Permutation and counts: no order property needed *)
+Theorem C05_dist_permutation_counts : forall (A : Type) (gt : A -> A -> bool) (sort : bool -> list A -> list A),
+  (forall d l, Permutation (sort d l) l) ->
+  forall counts xs, map (@length A) xs = counts ->
+  Permutation (concat (dist_psort A gt sort counts xs)) (concat xs) /\
+  map (@length A) (dist_psort A gt sort counts xs) = counts.
+Proof. exact dist_psort_permutation. Qed.
+Print Assumptions C05_dist_permutation_counts.
+
+(* ... sorted, permutation, counts: under the hypotheses of C05_sorted *)
+Theorem C05_dist_sorted_permutation_counts : forall (A : Type) (le : A -> A -> bool),
+  (forall a b, le a b = true \/ le b a = true) ->
+  (forall a b c, le a b = true -> le b c = true -> le a c = true) ->
+  forall sort : bool -> list A -> list A,
+  (forall d l, Permutation (sort d l) l) ->
+  (forall l, Sorted (fun a b => le a b = true) (sort true l)) ->
+  (forall l, Sorted (fun a b => le b a = true) (sort false l)) ->
+  forall counts xs, map (@length A) xs = counts ->
+  StronglySorted (fun a b => le a b = true) (concat (dist_psort A (gt_of A le) sort counts xs)) /\
+  Permutation (concat (dist_psort A (gt_of A le) sort counts xs)) (concat xs) /\
+  map (@length A) (dist_psort A (gt_of A le) sort counts xs) = counts.
+Proof. exact dist_psort_correct. Qed.
+Print Assumptions C05_dist_sorted_permutation_counts.
+
+(* ... and for EVERY order in which the outstanding sends and receives complete *)
+Theorem C05_dist_waitsome_sorted_permutation_counts : forall (A : Type) (le : A -> A -> bool),
+  (forall a b, le a b = true \/ le b a = true) ->
+  (forall a b c, le a b = true -> le b c = true -> le a c = true) ->
+  forall sort : bool -> list A -> list A,
+  (forall d l, Permutation (sort d l) l) ->
+  (forall l, Sorted (fun a b => le a b = true) (sort true l)) ->
+  (forall l, Sorted (fun a b => le b a = true) (sort false l)) ->
+  forall W counts xs, legal_oracle W -> map (@length A) xs = counts ->
+  exists ys, dist_psort_w A (gt_of A le) sort W counts xs = Some ys /\
+    ys = psort A (gt_of A le) sort counts xs /\
+    StronglySorted (fun a b => le a b = true) (concat ys) /\
+    Permutation (concat ys) (concat xs) /\
+    map (@length A) ys = counts.
+Proof. exact dist_psort_w_correct. Qed.
+Print Assumptions C05_dist_waitsome_sorted_permutation_counts.
+
+(* the hypothesis on the oracle is satisfiable (receives complete one by one in reverse order, all sends are reported
+   by one call), and the model computes with it *)
+Example C05_ex_legal_oracle : legal_oracle ex_oracle.
+Proof. exact ex_oracle_legal. Qed.
+Example C05_ex_dist_waitsome :
+  dist_psort_w Z Z.gtb zsort ex_oracle [3;0;2;4;1] [[5;3;9];[];[1;7];[2;8;4;6];[0]]%Z
+  = Some [[0;1;2];[];[3;4];[5;6;7;8];[9]]%Z /\
+  dist_psort_w Z Z.gtb zsort (fun _ _ m => (map (fun i => [i]) (seq 0 m), [])) [2;2] [[3;1];[2;0]]%Z = None.
+Proof. split; vm_compute; reflexivity. Qed.
